@@ -177,43 +177,59 @@ def rule_bump(rep, crate, cfg):
                     rep.viol(rid, 'bump:none-reaches-store:%s' % fld, 'the store to self.%s is not dominated by the Some edge of checked_add: on overflow a garbage value would be committed' % fld, where)
 
 
+def source_method(crate, ty, meth):
+    """The body that implements Source::<meth> for `ty` ('str', '[u8]', 'T'): the impl's own method or the trait's
+    default.  Returns (fn, 'own'|'default') or (None, None)."""
+    own = crate.fns.get('<%s as source::Source>::%s' % (ty, meth))
+    if own is not None:
+        return own, 'own'
+    has_impl = any(i.get('trait') == 'source::Source' and i.get('self_ty') == ty for i in crate.impls)
+    if has_impl:
+        d = crate.fns.get('source::Source::%s' % meth)
+        if d is not None:
+            return d, 'default'
+    return None, None
+
+
+def is_len_of_self(fn, op):
+    d = desc(fn, op)
+    return re.fullmatch(r'call:(core::str::<impl str>::len|core::slice::<impl \[T\]>::len|source::Source::len|<(str|\[u8\]) as source::Source>::len)\(param1\)', d) is not None or d == 'PtrMetadata(param1)'
+
+
+def index_le_len(fn):
+    r = ret_root(fn)
+    if r and r[0] == 'bin':
+        rhs = r[2]['rhs']
+        if rhs['bop'] == 'Le' and desc(fn, rhs['a']) == 'param2' and is_len_of_self(fn, rhs['b']):
+            return True
+        if rhs['bop'] == 'Ge' and desc(fn, rhs['b']) == 'param2' and is_len_of_self(fn, rhs['a']):
+            return True
+    return False
+
+
 def rule_is_boundary(rep, crate, cfg):
-    rid = rep.rule('M-C15b', 'Source::is_boundary: [u8] is `index <= len`, str is str::is_char_boundary(index), Deref wrapper forwards', floor=3)
-    # [u8]
-    fn = crate.one(r'^<\[u8\] as source::Source>::is_boundary$')
-    if rep.anchor(rid, '<[u8] as Source>::is_boundary [%s]' % cfg, fn is not None):
-        rep.inst(rid, cfg + ':[u8]::is_boundary')
-        ok = False
-        for rb in fn.return_blocks():
-            pass
-        r = ret_root(fn)
-        if r and r[0] == 'bin':
-            rhs = r[2]['rhs']
-            a, b = trace(fn, rhs['a']), trace(fn, rhs['b'])
-            def is_idx(x): return x[0] == 'param' and x[1] == 2
-            def is_len(x): return x[0] == 'call' and re.search(r'(::len$|slice::<impl \[T\]>::len)', fn.callee_name(x[2])) or (x[0] == 'un' and x[2]['rhs'].get('uop') == 'PtrMetadata')
-            if rhs['bop'] == 'Le' and is_idx(a) and is_len(b):
-                ok = True
-            if rhs['bop'] == 'Ge' and is_len(a) and is_idx(b):
-                ok = True
-        if not ok:
-            rep.viol(rid, '[u8]::is_boundary:shape', '<[u8] as Source>::is_boundary does not return `index <= self.len()`', loc(fn))
-    fn = crate.one(r'^<str as source::Source>::is_boundary$')
-    if rep.anchor(rid, '<str as Source>::is_boundary [%s]' % cfg, fn is not None):
-        rep.inst(rid, cfg + ':str::is_boundary')
-        r = ret_root(fn)
-        ok = r and r[0] == 'call' and re.search(r'is_char_boundary$', fn.callee_name(r[2])) and \
-            trace(fn, r[2]['args'][1])[:2] == ('param', 2) and trace(fn, r[2]['args'][0])[:2] == ('param', 1)
-        if not ok:
-            rep.viol(rid, 'str::is_boundary:shape', '<str as Source>::is_boundary does not return self.is_char_boundary(index)', loc(fn))
-    fn = crate.one(r'^<T as source::Source>::is_boundary$')
-    if rep.anchor(rid, '<T as Source>::is_boundary [%s]' % cfg, fn is not None):
-        rep.inst(rid, cfg + ':T::is_boundary')
-        r = ret_root(fn)
-        ok = r and r[0] == 'call' and re.search(r'Source::is_boundary$', fn.callee_name(r[2])) and \
-            trace(fn, r[2]['args'][1])[:2] == ('param', 2)
-        if not ok:
-            rep.viol(rid, 'T::is_boundary:shape', 'Deref wrapper is_boundary does not forward its index', loc(fn))
+    rid = rep.rule('M-C15b', 'the Source::is_boundary body that applies to each Source impl: [u8] is `index <= len`, str is str::is_char_boundary(index), the Deref wrapper forwards to the target', floor=3)
+    fn, how = source_method(crate, '[u8]', 'is_boundary')
+    if rep.anchor(rid, 'Source::is_boundary for [u8] [%s]' % cfg, fn is not None):
+        rep.inst(rid, cfg + ':[u8]::is_boundary', detail=dict(body=fn.name, via=how, ret=ret_desc(fn)))
+        if not index_le_len(fn):
+            rep.viol(rid, '[u8]::is_boundary:shape', 'the is_boundary that applies to [u8] (%s) does not return `index <= self.len()` but %s' % (fn.name, ret_desc(fn)), loc(fn))
+    fn, how = source_method(crate, 'str', 'is_boundary')
+    if rep.anchor(rid, 'Source::is_boundary for str [%s]' % cfg, fn is not None):
+        d = ret_desc(fn)
+        rep.inst(rid, cfg + ':str::is_boundary', detail=dict(body=fn.name, via=how, ret=d))
+        if d != 'call:core::str::<impl str>::is_char_boundary(param1,param2)':
+            rep.viol(rid, 'str::is_boundary:shape', 'the is_boundary that applies to str (%s) returns %s, expected self.is_char_boundary(index)' % (fn.name, d), loc(fn))
+    fn, how = source_method(crate, 'T', 'is_boundary')
+    if rep.anchor(rid, 'Source::is_boundary for Deref wrappers [%s]' % cfg, fn is not None):
+        d = ret_desc(fn)
+        rep.inst(rid, cfg + ':T::is_boundary', detail=dict(body=fn.name, via=how, ret=d))
+        if d != 'call:source::Source::is_boundary(call:std::ops::Deref::deref(param1),param2)':
+            rep.viol(rid, 'T::is_boundary:shape', 'the is_boundary that applies to Deref wrappers (String, Box<str>, &str, ...) is %s and returns %s: it does not forward to the target, so the str rule is lost' % (fn.name, d), loc(fn))
+    # any further Source impl must be audited
+    for i in crate.impls:
+        if i.get('trait') == 'source::Source' and i.get('self_ty') not in ('str', '[u8]', 'T'):
+            rep.viol(rid, 'source-impl:%s' % i.get('self_ty'), 'unaudited Source impl for %s' % i.get('self_ty'), 'src/source.rs')
 
 
 def ret_root(fn):
@@ -799,3 +815,231 @@ def rule_read_forbid(rep, crate, cfg):
             nm = fn.callee_name(x) if kind == 'call' else ''
             if not re.search(r'(Chunk::from_slice|FromResidual<.*>>::from_residual)$', nm):
                 rep.viol(rid, '%s::read:return-shape' % tyn, 'unexpected definition of the return value', where)
+
+
+# --------------------------------------------------------------------------------------------
+# C13: callback return value mapping table
+# --------------------------------------------------------------------------------------------
+
+STD_VARIANTS = {'std::option::Option': ['None', 'Some'], 'std::result::Result': ['Ok', 'Err']}
+
+
+def variants_of(crate, ty):
+    base = ty.split('<')[0]
+    if base in STD_VARIANTS:
+        return STD_VARIANTS[base]
+    if base in crate.enums:
+        return [v[0] for v in crate.enums[base]]
+    return None
+
+
+def payload_kind(fn, op):
+    d = desc(fn, op)
+    if 'std::ops::Fn::call(' in d or 'FnOnce::call_once(' in d or 'FnMut::call_mut(' in d:
+        return 'con'
+    if 'std::convert::Into::into(' in d or 'std::convert::From::from(' in d:
+        return 'into'
+    if d.startswith('param1') or d.startswith('self'):
+        return 'id'
+    return '?' + d
+
+
+def result_aggs(fn, edge=None):
+    """`_0 = <CallbackResult|SkipResult>::Variant(..)` assignments (dominated by edge if given)"""
+    out = []
+    for kind, bi, si, x in fn.defs().get(0, []):
+        if bi not in fn.live_blocks():
+            continue
+        if edge is not None and not fn.edge_dominates(edge, bi):
+            continue
+        if kind == 'stmt' and x['rhs']['rv'] == 'agg' and x['rhs']['kind'].get('adt') in ('internal::CallbackResult', 'internal::SkipResult'):
+            ops = x['rhs']['ops']
+            out.append((x['rhs']['kind']['variant'], payload_kind(fn, ops[0]) if ops else None))
+        else:
+            out.append(('?', None))
+    return out
+
+
+def mapping_of(crate, fn):
+    """input variant -> (output variant, payload kind)"""
+    sw = [b for b in switches(fn)]
+    if not sw:
+        r = result_aggs(fn)
+        return {'*': r[0]} if len(r) == 1 else {'*': ('?multi', None)}
+    sb = sw[0]
+    term = fn.blocks[sb]['term']
+    root = trace(fn, term['discr'])
+    m = {}
+    if root[0] == 'discr' and root[2]['rhs']['place']['local'] == 1:
+        names = variants_of(crate, fn.locals[1])
+        if names is None:
+            return {'?': ('unknown enum ' + fn.locals[1], None)}
+        for v, tgt in term['targets']:
+            if v == 'otherwise':
+                rest = [n for i, n in enumerate(names) if str(i) not in [x for x, _ in term['targets']]]
+                if not rest:
+                    continue
+                label = '|'.join(rest)
+            else:
+                label = names[int(v)] if int(v) < len(names) else '?%s' % v
+            r = result_aggs(fn, (sb, tgt))
+            m[label] = r[0] if len(r) == 1 else ('?multi%d' % len(r), None)
+    elif root[0] == 'param' and root[1] == 1 and fn.locals[1] == 'bool':
+        e = bool_edges(fn, sb)
+        for label, tgt in (('true', e[0]), ('false', e[1])):
+            r = result_aggs(fn, (sb, tgt))
+            m[label] = r[0] if len(r) == 1 else ('?multi%d' % len(r), None)
+    else:
+        return {'?': ('unrecognised dispatch', None)}
+    return m
+
+
+# (trait, self type) -> expected mapping.  Source: book/src/callbacks.md and the rustdoc of Filter, FilterResult, Skip.
+CB = 'internal::CallbackRetVal'
+SK = 'internal::SkipRetVal'
+MAPPING_TABLE = {
+    (CB, 'T'): {'*': ('Emit', 'con')},
+    (CB, 'std::result::Result<T, E>'): {'Ok': ('Emit', 'con'), 'Err': ('Error', 'into')},
+    (CB, 'std::option::Option<T>'): {'Some': ('Emit', 'con'), 'None': ('DefaultError', None)},
+    (CB, 'Filter<T>'): {'Emit': ('Emit', 'con'), 'Skip': ('Skip', None)},
+    (CB, 'FilterResult<T, E>'): {'Emit': ('Emit', 'con'), 'Skip': ('Skip', None), 'Error': ('Error', 'into')},
+    (CB, 'bool'): {'true': ('Emit', 'con'), 'false': ('DefaultError', None)},
+    (CB, 'Skip'): {'*': ('Skip', None)},
+    (CB, 'std::result::Result<Skip, E>'): {'Ok': ('Skip', None), 'Err': ('Error', 'into')},
+    (CB, 'L'): {'*': ('Emit', 'id')},
+    (CB, 'std::result::Result<L, E>'): {'Ok': ('Emit', 'id'), 'Err': ('Error', 'into')},
+    (CB, 'Filter<L>'): {'Emit': ('Emit', 'id'), 'Skip': ('Skip', None)},
+    (CB, 'FilterResult<L, E>'): {'Emit': ('Emit', 'id'), 'Skip': ('Skip', None), 'Error': ('Error', 'into')},
+    (SK, '()'): {'*': ('Skip', None)},
+    (SK, 'Skip'): {'*': ('Skip', None)},
+    (SK, 'std::result::Result<(), E>'): {'Ok': ('Skip', None), 'Err': ('Error', 'into')},
+    (SK, 'std::result::Result<Skip, E>'): {'Ok': ('Skip', None), 'Err': ('Error', 'into')},
+    ('std::convert::From', "internal::CallbackResult<'a, L>"): {'Skip': ('Skip', None), 'Error': ('Error', 'id')},
+}
+
+
+def rule_mapping_table(rep, crate, cfg):
+    rid = rep.rule('M-C13a', 'every impl of CallbackRetVal / SkipRetVal / From<SkipResult> maps each input variant to the documented CallbackResult variant (T,(),true -> Emit; None,false -> DefaultError; Err(e) -> Error(e.into()); Skip -> Skip); no undocumented impl, no missing row', floor=17)
+    seen = set()
+    for imp in crate.impls:
+        tr = imp.get('trait')
+        if tr not in (CB, SK, 'std::convert::From'):
+            continue
+        st = imp.get('self_ty')
+        if tr == 'std::convert::From' and 'CallbackResult' not in st:
+            continue
+        key = (tr, st)
+        fns = [crate.fns[n] for n in imp['items'] if n in crate.fns]
+        if len(fns) != 1:
+            rep.viol(rid, 'impl-shape:%s:%s' % (tr, st), 'impl %s for %s does not have exactly one method body' % (tr, st), 'src/internal.rs')
+            continue
+        fn = fns[0]
+        got = mapping_of(crate, fn)
+        rep.inst(rid, '%s:%s for %s' % (cfg, tr.split('::')[-1], st), detail=got)
+        if key not in MAPPING_TABLE:
+            rep.viol(rid, 'undocumented-impl:%s:%s' % (tr.split('::')[-1], st), 'impl %s for %s is not in the documented table (maps %s)' % (tr, st, got), loc(fn))
+            continue
+        seen.add(key)
+        want = MAPPING_TABLE[key]
+        if {k: tuple(v) for k, v in got.items()} != {k: tuple(v) for k, v in want.items()}:
+            rep.viol(rid, 'mapping:%s:%s' % (tr.split('::')[-1], st), 'impl %s for %s maps %s, documented: %s' % (tr, st, got, want), loc(fn))
+        # the constructor argument must be the trait's `con` parameter and the payload the matched value
+        # output type
+        for kind, bi, si, x in fn.defs().get(0, []):
+            if kind == 'stmt' and x['rhs']['rv'] == 'agg':
+                adt = x['rhs']['kind'].get('adt')
+                want_adt = 'internal::SkipResult' if tr == SK else 'internal::CallbackResult'
+                if adt != want_adt:
+                    rep.viol(rid, 'mapping-type:%s:%s' % (tr.split('::')[-1], st), 'constructs %s' % adt, loc(fn, x['line']))
+    for key in MAPPING_TABLE:
+        if key not in seen:
+            rep.viol(rid, 'missing-impl:%s:%s' % (key[0].split('::')[-1], key[1]), 'documented row without impl: %s for %s' % key, 'src/internal.rs')
+
+
+# --------------------------------------------------------------------------------------------
+# C02 / C04 / C12: rounding
+# --------------------------------------------------------------------------------------------
+
+def rule_rounding(rep, crate, cfg):
+    rid = rep.rule('M-C02a', 'end_to_boundary stores Source::find_boundary(offset) and nothing else; the find_boundary that applies to str returns its index only on the true edge of is_char_boundary(index) and only ever increases it; for [u8] it is the identity; the Deref wrapper forwards', floor=4)
+    fn = internal_fn(crate, 'end_to_boundary')
+    if rep.anchor(rid, 'fn LexerInternal::end_to_boundary [%s]' % cfg, fn is not None):
+        stores, escapes = self_effects(fn)
+        rep.inst(rid, cfg + ':end_to_boundary', detail=stores)
+        want = [('token_end', 'call:source::Source::find_boundary(self.source,param2)')]
+        if [(f, v) for f, v, _l in stores] != want or escapes:
+            rep.viol(rid, 'end_to_boundary:effect', 'end_to_boundary has effects %s %s, expected exactly token_end := self.source.find_boundary(offset)' % ([(f, v) for f, v, _l in stores], escapes), loc(fn))
+    fn, how = source_method(crate, 'str', 'find_boundary')
+    if rep.anchor(rid, 'Source::find_boundary for str [%s]' % cfg, fn is not None):
+        rep.inst(rid, cfg + ':str::find_boundary', detail=dict(body=fn.name, via=how))
+        ok = True
+        why = ''
+        # returns local 2 (index) only on the true edge of is_char_boundary(self, index)
+        guards = []
+        for sb in switches(fn):
+            c = cond_of_switch(fn, sb)
+            if c and c['root'][0] == 'call' and re.search(r'is_char_boundary$', fn.callee_name(c['root'][2])):
+                t = c['root'][2]
+                a1 = op_place(t['args'][1]) and fn.slice(t['args'][1], through_calls=False)
+                if a1 is not None and 2 in a1.locals and desc(fn, t['args'][0]) in ('param1', 'self'):
+                    guards.append(c)
+        rets = [d for d in fn.defs().get(0, []) if d[1] in fn.live_blocks()]
+        if not guards:
+            ok, why = False, 'no is_char_boundary(index) guard'
+        for kind, bi, si, x in rets:
+            if kind != 'stmt' or x['rhs']['rv'] != 'use' or (op_place(x['rhs']['a']) or {}).get('local') != 2:
+                ok, why = False, 'returns something other than the index variable'
+            elif not any(fn.edge_dominates((g['bb'], g['t']), bi) for g in guards):
+                ok, why = False, 'index is returned without passing is_char_boundary'
+        # every update of index is index + positive constant
+        for kind, bi, si, x in fn.defs().get(2, []):
+            if kind != 'stmt':
+                ok, why = False, 'index assigned from a call'
+                continue
+            sl = fn.slice(x['rhs'].get('a') or x['rhs'].get('place') or {'op': 'const'})
+            bops = sl.binops - {'Eq', 'Ne', 'Lt', 'Le', 'Gt', 'Ge'}
+            if not bops <= {'Add', 'AddWithOverflow', 'AddUnchecked'}:
+                ok, why = False, 'index updated with %s' % sorted(bops)
+            if sl.calls:
+                ok, why = False, 'index updated through calls %s' % sorted(sl.calls)
+            ints = {v for v in sl.int_consts()}
+            if 0 in ints or not ints:
+                ok, why = False, 'index increment is not a positive constant'
+        if how != 'own':
+            ok, why = False, 'str uses the identity default'
+        if not ok:
+            rep.viol(rid, 'str::find_boundary:shape', 'find_boundary for str (%s): %s' % (fn.name, why), loc(fn))
+    fn, how = source_method(crate, '[u8]', 'find_boundary')
+    if rep.anchor(rid, 'Source::find_boundary for [u8] [%s]' % cfg, fn is not None):
+        d = ret_desc(fn)
+        rep.inst(rid, cfg + ':[u8]::find_boundary', detail=dict(body=fn.name, via=how, ret=d))
+        if d != 'param2':
+            rep.viol(rid, '[u8]::find_boundary:identity', 'find_boundary for [u8] (%s) returns %s, expected the identity' % (fn.name, d), loc(fn))
+    fn, how = source_method(crate, 'T', 'find_boundary')
+    if rep.anchor(rid, 'Source::find_boundary for Deref wrappers [%s]' % cfg, fn is not None):
+        d = ret_desc(fn)
+        rep.inst(rid, cfg + ':T::find_boundary', detail=dict(body=fn.name, via=how, ret=d))
+        if d != 'call:source::Source::find_boundary(call:std::ops::Deref::deref(param1),param2)':
+            rep.viol(rid, 'T::find_boundary:forward', 'find_boundary for Deref wrappers (%s) returns %s: it does not forward to the target' % (fn.name, d), loc(fn))
+
+
+def rule_next_resumes(rep, crate, cfg):
+    rid = rep.rule('M-C02b', 'Iterator::next sets token_start := token_end before calling Logos::lex (every item starts where the previous one ended)', floor=1)
+    pat = r'^<lexer::Lexer<.*> as std::iter::Iterator>::next$'
+    fn = crate.one(pat)
+    if not rep.anchor(rid, 'fn Lexer::next [%s]' % cfg, fn is not None):
+        return
+    stores, escapes = self_effects(fn)
+    rep.inst(rid, cfg + ':next', detail=[(f, v) for f, v, _l in stores])
+    if [(f, v) for f, v, _l in stores] != [('token_start', 'self.token_end')]:
+        rep.viol(rid, 'next:effect', 'Lexer::next stores %s, expected token_start := token_end' % [(f, v) for f, v, _l in stores], loc(fn))
+    calls = find_calls(fn, r'Logos::lex$')
+    if len(calls) != 1:
+        rep.viol(rid, 'next:lex', 'Lexer::next does not call Logos::lex exactly once', loc(fn))
+    for bi, t in calls:
+        sb = [b for b, _s, st in stores_to_field(fn, 'token_start')]
+        if not any(fn.dominates_block(b, bi) for b in sb):
+            rep.viol(rid, 'next:order', 'the store does not dominate the call of Logos::lex', loc(fn))
+    d = ret_desc(fn)
+    if d != 'call:Logos::lex(param1)' and d != 'call:Logos::lex(self)':
+        rep.viol(rid, 'next:return', 'Lexer::next returns %s, expected Token::lex(self)' % d, loc(fn))
